@@ -15,7 +15,7 @@ From Tink Require Import Bytes Wrap MldsaScalar MldsaScalarProofs MldsaScalarPro
   MldsaProofs MldsaExamples
   MldsaConvProofs MldsaNormProofs MldsaSampleProofs MldsaSignVerifyProofs MldsaKeyCodecProofs MldsaSignVerifyExamples
   MldsaNttEvalProofs MldsaVerifyIffProofs MldsaCompositeProofs MldsaAcceptExamples
-  MldsaFips MldsaFipsBasics MldsaFipsSampling MldsaFipsEncodings.
+  MldsaFips MldsaFipsBasics MldsaFipsSampling MldsaFipsEncodings MldsaFipsNtt MldsaFipsTop.
 Import ListNotations.
 Local Open Scope Z_scope.
 
@@ -875,3 +875,72 @@ Proof.
   intros sigma L. apply (sigDecode_eq P FF PF sigma L).
 Qed.
 Print Assumptions C10_fips_encodings.
+
+(* Algorithms 41-48: the standard's NTT / NTT^-1 (nested loops updating the
+   array in place, zetas[m] = 1753^BitRev8(m) mod q computed, not tabulated)
+   equal the model's transforms (which section 9 proves to be evaluation at
+   the roots / interpolation), on the standard's SIGNED inputs through their
+   residues; the NTT-domain arithmetic and the R_q vector arithmetic equal the
+   model's *)
+Theorem C10_fips_ntt :
+  (forall m, (1 <= m <= 255)%nat -> FIPS.zetas m = zeta_at m) /\
+  (forall w : list Z, length w = 256%nat -> FIPS.NTT w = ntt (map (fun x => x mod q) w)) /\
+  (forall w : list Z, cpoly w -> FIPS.NTT_inv w = intt w) /\
+  (forall a b, cpoly a -> cpoly b -> FIPS.AddNTT a b = padd a b /\ FIPS.MultiplyNTT a b = pmul a b) /\
+  (forall n c v w, cpoly c -> cvec n v -> cvec n w ->
+     FIPS.AddVectorNTT v w = vadd v w /\ FIPS.ScalarVectorNTT c v = vscalarMul c v /\
+     FIPS.AddVector v w = vadd v w /\ FIPS.SubVector v w = vsub v w /\ FIPS.NegVector v = vneg v) /\
+  (forall kk ll M v, cmat kk ll M -> cvec ll v -> FIPS.MatrixVectorNTT kk ll M v = mmul M v) /\
+  (forall v B, 0 < B -> Forall (fun p => length p = 256%nat) v ->
+     (FIPS.norm_vec v <? B) = (vinfNorm (map (map (fun x => x mod q)) v) <? B)).
+Proof.
+  split; [exact zetas_eq|]. split; [exact NTT_eq|]. split; [exact NTT_inv_eq|].
+  split; [intros a b Ha Hb; exact (conj (AddNTT_eq a b Ha Hb) (MultiplyNTT_eq a b Ha Hb))|].
+  split.
+  - intros n c v w Hc Hv Hw. split; [|split; [|split; [|split]]].
+    + unfold FIPS.AddVectorNTT, vadd. rewrite zip_with_map2.
+      apply (map2_ext_F cpoly cpoly); [apply Hv | apply Hw | exact AddNTT_eq].
+    + apply (ScalarVectorNTT_eq n); auto.
+    + apply (AddVector_eq n); auto.
+    + apply (SubVector_eq n); auto.
+    + apply (NegVector_eq n); auto.
+  - split; [exact MatrixVectorNTT_eq | exact norm_ltb].
+Qed.
+Print Assumptions C10_fips_ntt.
+
+(* ML-DSA.Verify_internal (Algorithm 8), its external-mu entry, ML-DSA.Verify
+   (Algorithm 3) and the Tink verifier of a key without output prefix: for
+   every encoded public key of the right length (pk is what pkDecode returns
+   for it) and every signature of signatureLength bytes the model's verifier
+   returns exactly what the standard's algorithm returns — accept, reject, or
+   "out of stream" when ExpandA / SampleInBall exceed the Squeeze bounds 672 /
+   1024.  (Signatures of any other length are rejected by the model: that is
+   the length check of the Go code, C10_verify_other_answers; the standard
+   types sigma as a string of that length.) *)
+Theorem C10_fips_verify : forall (H G : bytes -> nat -> bytes) P,
+  xof_laws H -> xof_laws G -> P = MLDSA44 \/ P = MLDSA65 \/ P = MLDSA87 ->
+  (forall pkb pk mu sigma, pkDecode H P pkb = Some pk -> length sigma = signatureLength P ->
+     verifyInternalWithMu G H P pk mu sigma = FIPS.Verify_mu H G (fips_of P) 672 1024 pkb mu sigma) /\
+  (forall pkb pk Mp sigma, pkDecode H P pkb = Some pk -> length sigma = signatureLength P ->
+     verifyInternal G H P pk Mp sigma = FIPS.Verify_internal H G (fips_of P) 672 1024 pkb Mp sigma) /\
+  (forall pkb pk M sigma ctx, pkDecode H P pkb = Some pk -> length sigma = signatureLength P ->
+     verify G H P pk M sigma ctx = FIPS.Verify H G (fips_of P) 672 1024 pkb M sigma ctx) /\
+  (forall pkb sigma data, length pkb = publicKeyLength P -> length sigma = signatureLength P ->
+     tinkVerify G H P [] pkb sigma data = FIPS.Verify H G (fips_of P) 672 1024 pkb data sigma []).
+Proof.
+  intros H G P HH HG HP.
+  split; [exact (Verify_mu_eq H G HH HG P HP)|].
+  split; [exact (Verify_internal_eq H G HH HG P HP)|].
+  split; [exact (Verify_eq H G HH HG P HP) | exact (tinkVerify_eq H G HH HG P HP)].
+Qed.
+Print Assumptions C10_fips_verify.
+
+(* ML-DSA.KeyGen_internal (Algorithm 6): the ENCODED key pair of the model is
+   the standard's (pk, sk), byte for byte; None (out of stream) exactly when
+   the standard's ExpandA / ExpandS exceed the Squeeze bounds 672 / 1536 *)
+Theorem C10_fips_keygen : forall (H G : bytes -> nat -> bytes) P seed,
+  xof_laws H -> xof_laws G -> P = MLDSA44 \/ P = MLDSA65 \/ P = MLDSA87 ->
+  option_map (fun '(pk, sk) => (pkEncode pk, skEncode P sk)) (keyGenInternal G H P seed) =
+  FIPS.KeyGen_internal H G (fips_of P) 672 1536 seed.
+Proof. intros H G P seed HH HG HP. exact (KeyGen_internal_eq H G HH HG P HP seed). Qed.
+Print Assumptions C10_fips_keygen.
